@@ -59,7 +59,7 @@ func DetLicense(version int, seed string) license.License {
 	case 2:
 		return &license.V2{EncryptionKey: detBytes(seed+"/key", 32), EncryptionSalt: detBytes(seed+"/salt", 24), User: u, Sign: s, Index: 1}
 	default:
-		return &license.V3{EncryptionKey: detBytes(seed+"/key", 32), User: u, Sign: s, Index: 1}
+		return &license.V3{EncryptionKey: detBytes(seed+"/key", 32), EncryptionSalt: detBytes(seed+"/salt", 16), User: u, Sign: s, Index: 1}
 	}
 }
 
